@@ -88,7 +88,8 @@ func c06Insert(name string, form int) *Node {
 	case 6:
 		return &Node{K: "insert", Name: name, E: eBin("+", eLit(vStr("I"+tag+"+")), eVar("v"))}
 	case 8: // the body reads the loop variable of the layout block around the reserve (in-place evaluation)
-		return &Node{K: "insert", Name: name, Body: []*Node{nText("I" + tag + "[i="), nPrint(eVar("i")), nText("]")}}
+		// ... and ends that loop from inside the insert (the reserve is replaced by the insert content, directives included)
+		return &Node{K: "insert", Name: name, Body: []*Node{nText("I" + tag + "[i="), nPrint(eVar("i")), nText("]"), {K: "breakif", E: eBin("==", eVar("i"), eLit(vInt(2)))}, nText("z")}}
 	case 7: // the body assigns a variable that the layout may read after the reserve
 		return &Node{K: "insert", Name: name, Body: []*Node{nAssign("w", eLit(vStr("dark"+tag))), nText("I" + tag + "-set")}}
 	}
